@@ -235,7 +235,7 @@ func relOffsets(fn *ssa.Function, off ssa.Value) map[string]bool {
 			}
 		case *ssa.Call:
 			if calleeName(&x.Call) == "(*internal/counter.mappedFile).load32" {
-				note(x.Call.Args[1], "4")
+				note(argsOf(x)[1], "4")
 			}
 		}
 	}
@@ -266,7 +266,7 @@ func c10Offsets(c *Ctx, m *Module) {
 			}
 			if cl, ok := x.(*ssa.Call); ok && calleeName(&cl.Call) == "(*internal/counter.mappedFile).load32" {
 				p := newProver()
-				l := p.norm(cl.Call.Args[1]).add(p.norm(fn.Params[1]), -1)
+				l := p.norm(argsOf(cl)[1]).add(p.norm(fn.Params[1]), -1)
 				if len(l.coef) == 0 {
 					return fmt.Sprintf("+%d", l.k)
 				}
@@ -277,7 +277,7 @@ func c10Offsets(c *Ctx, m *Module) {
 	wRoles, eRoles := map[string]string{}, map[string]string{}
 	for _, cs := range callsIn(w) {
 		if strings.HasPrefix(calleeName(cs.Common()), "sync/atomic.StoreUint32") {
-			wRoles["length"] = offOf(w, cs.Common().Args[0])
+			wRoles["length"] = offOf(w, argsOf(cs)[0])
 		}
 	}
 	for _, b := range w.Blocks {
@@ -360,7 +360,7 @@ func c10Offsets(c *Ctx, m *Module) {
 		found := false
 		for _, cs := range callsIn(fn, "(*internal/counter.mappedFile).load32") {
 			p := newProver()
-			l := p.norm(cs.Common().Args[1])
+			l := p.norm(argsOf(cs)[1])
 			four := 0
 			hdr := 0
 			for t, cf := range l.coef {
@@ -380,7 +380,7 @@ func c10Offsets(c *Ctx, m *Module) {
 	// lookup hashes the name it looks up with hash()
 	okHash := false
 	for _, cs := range callsIn(lk, "internal/counter.hash") {
-		if cs.Common().Args[0] == ssa.Value(lk.Params[1]) {
+		if argsOf(cs)[0] == ssa.Value(lk.Params[1]) {
 			okHash = true
 		}
 	}
@@ -503,7 +503,7 @@ func c10ExtendTail(c *Ctx, m *Module, rule string) {
 		ok := e.Name == "(*os.File).WriteAt"
 		detail := e.Name
 		if ok {
-			a := e.Call.Common().Args
+			a := argsOf(e.Call)
 			buf := describe(a[1])
 			okBuf := strings.HasSuffix(buf, ".zero,_,_,_)") || strings.Contains(buf, ".zero")
 			p := newProver()
@@ -542,9 +542,11 @@ func c10ExtendTail(c *Ctx, m *Module, rule string) {
 		ok := e.Name == "(*os.File).WriteAt"
 		detail := e.Name
 		if ok {
-			a := e.Call.Common().Args
+			a := argsOf(e.Call)
 			buf := describe(a[1])
-			off, isC := intConst(a[2])
+			// the offset as a constant (directly, or after len() of the fixed-size zero buffer folds)
+			offL := newProver().norm(a[2])
+			off, isC := offL.k, len(offL.coef) == 0
 			minLen := int64(0)
 			fmt.Sscan(m.ConstVal("internal/counter", "minFileLen"), &minLen)
 			isHdr := strings.HasPrefix(buf, "internal/counter.mappedHeader(") && isC && off == 0
@@ -564,7 +566,7 @@ func c10Limit(c *Ctx, m *Module, rule string) {
 	nc := m.Func("internal/counter", "mappedFile.newCounter")
 	nCAS := 0
 	for _, cs := range callsIn(nc, "(*internal/counter.mappedFile).cas32") {
-		a := cs.Common().Args
+		a := argsOf(cs)
 		p := newProver()
 		off := p.norm(a[1])
 		isLimit := false
